@@ -12,7 +12,7 @@ from vp import val, coqrun, rustrun
 from vp.val import cN, cbool, clist, cpair, copt
 
 OPN = {'ins': 0, 'rem': 1, 'drop': 2, 'mstale': 3, 'dstale': 4, 'mllgr': 5, 'dllgr': 6,
-       'nhv': 7, 'pol': 8, 'reset': 9, 'unreg': 10}
+       'nhv': 7, 'pol': 8, 'reset': 9, 'unreg': 10, 'insl': 11, 'sdef': 12, 'edef': 13}
 
 # ---- fixed configurations (cfg = peers, attrs, vrfs, pols)
 def mk_cfg(k):
@@ -68,6 +68,9 @@ def op_to_val(o):
     if t == 'ins':
         _, peer, sess, (k, i), pid, nh, tok = o
         return [0, peer, sess, k, i, pid, [] if nh is None else [nh_norm(nh)], tok]
+    if t == 'insl':
+        _, peer, sess, (k, i), pid, nh, tok, mx, cnt = o
+        return [11, peer, sess, k, i, pid, [] if nh is None else [nh_norm(nh)], tok, mx, cnt]
     if t == 'rem':
         _, peer, sess, (k, i), pid = o
         return [1, peer, sess, k, i, pid]
@@ -81,13 +84,17 @@ def op_to_coq(o):
     if t == 'ins':
         _, peer, sess, p, pid, nh, tok = o
         return '(Insert %s %s %s %s %s %s)' % (cN(peer), cN(sess), pf(p), cN(pid), nh_coq(nh), cN(tok))
+    if t == 'insl':
+        _, peer, sess, p, pid, nh, tok, mx, cnt = o
+        return '(InsertLim %s %s %s %s %s %s %s %s)' % (cN(peer), cN(sess), pf(p), cN(pid), nh_coq(nh), cN(tok), cN(mx), cN(cnt))
     if t == 'rem':
         _, peer, sess, p, pid = o
         return '(Remove %s %s %s %s)' % (cN(peer), cN(sess), pf(p), cN(pid))
     if t == 'nhv':
         return '(NhValidity %s %s)' % (cN(o[1]), cbool(o[2]))
     name = {'drop': 'DropPeer', 'unreg': 'DropPeer', 'mstale': 'MarkStale', 'dstale': 'DropStale',
-            'mllgr': 'MarkLlgr', 'dllgr': 'DropLlgr', 'pol': 'SetPolicy', 'reset': 'SoftResetIn'}[t]
+            'mllgr': 'MarkLlgr', 'dllgr': 'DropLlgr', 'pol': 'SetPolicy', 'reset': 'SoftResetIn',
+            'sdef': 'StartDef', 'edef': 'EndDef'}[t]
     return '(%s %s)' % (name, cN(o[1]))
 
 # ---- kernel semantics of the request stream (kernel/src/lib.rs Handle::apply and the
@@ -138,7 +145,7 @@ class Prop:
     ]
     assumptions = [
         'operations are sequential (the property quantifies over histories); insert_route reading nexthop_invalid before taking the shard lock is a schedule-dependent window not explored',
-        'the kernel handle is installed before the history starts; no family is in restarting-speaker deferral (C11); no prefix limit (C15)',
+        'the kernel handle is installed before the history starts; restarting-speaker deferral of a family starts while the family holds no route (it is started at boot, event/mod.rs); the prefix-limit counter is an input of each insert (its bookkeeping is C15)',
         'peer-level operations name every family of the session (IPv4 unicast and VPNv4), as the GR glue does (C10)',
         'VRFs with a kernel table have distinct table ids and distinct VPN prefixes have distinct VRF-local prefixes (one RD)',
     ]
@@ -165,7 +172,7 @@ class Prop:
         ops = []
         for o in j['ops']:
             o = list(o)
-            if o[0] in ('ins', 'rem'):
+            if o[0] in ('ins', 'rem', 'insl'):
                 o[3] = tuple(o[3])
             ops.append(tuple(o))
         c['ops'] = ops
@@ -190,8 +197,17 @@ class Prop:
         toks_tied = [0, 1, 3] if flavour != 'llgr' else [0, 1, 2, 6]
         live = []       # (peer, sess, prefix, pid) inserted so far
         sess = {1: 0, 2: 0, 3: 0, 0: 0}
+        deferring = []
+        if rng.random() < 0.3:
+            # restarting-speaker deferral: started on empty tables, ended somewhere in the history
+            deferring = rng.sample([0, 1, 3, 4], rng.choice([1, 2, 4]))
+            ops += [('sdef', f) for f in deferring]
         for _ in range(n):
             x = rng.random()
+            if deferring and rng.random() < 0.12:
+                f = deferring.pop()
+                ops.append(('edef', f))
+                continue
             if x < 0.42 or not live:
                 peer = rng.choice(peers + ([0] if rng.random() < 0.15 else []))
                 p = rng.choice(prefixes)
@@ -204,7 +220,11 @@ class Prop:
                 tok = rng.choice(toks_tied) if r < 0.7 else rng.choice([2, 4, 5, 6])
                 if peer == 0:
                     sess[0] = rng.choice([0, 0, 1])       # gRPC-injected or kernel-redistributed pseudo-source
-                ops.append(('ins', peer, sess[peer], p, pid, nh, tok))
+                if rng.random() < 0.12:
+                    mx = rng.choice([0, 1, 2, 3])
+                    ops.append(('insl', peer, sess[peer], p, pid, nh, tok, mx, max(0, mx + rng.choice([-1, 0, 0, 1]))))
+                else:
+                    ops.append(('ins', peer, sess[peer], p, pid, nh, tok))
                 live.append((peer, sess[peer], p, pid))
             elif x < 0.60:
                 peer, s, p, pid = rng.choice(live)
@@ -229,6 +249,7 @@ class Prop:
                 ops.append(('pol', rng.choice([0, 1, 2, 3])))
             else:
                 ops.append(('reset', rng.choice(peers)))
+        ops += [('edef', f) for f in deferring]
         return ops
 
     # ---- classes enumerated on every run (each case carries its class in 'cls')
@@ -335,6 +356,36 @@ class Prop:
             Q = (P[0], P[1] + 10)
             add('vrf:two_rds:k%d' % P[0], [ins(1, P, 1, 10), ins(2, Q, 2, 10), rem(2, Q), rem(1, P)])
             add('vrf:two_rds_one_importable:k%d' % P[0], [ins(1, P, 1, 10), ins(2, Q, 2, 19), rem(2, Q)])
+        # L: the prefix-limit test of Table::insert in the FIB stream: counter below / at / above the limit
+        # (also at the u32 end), for a new prefix / a replacement / another Add-Path id / another peer's path present
+        insl = lambda peer, p, a, tok, mx, cnt, pid=0: ('insl', peer, 0, p, pid, nh(a), tok, mx, cnt)
+        M = 4294967295
+        for P in PF:
+            for mx, cnts in ((0, (0, 1)), (1, (0, 1, 2)), (2, (1, 2, 3)), (M, (M - 1, M))):
+                for cnt in cnts:
+                    tag = 'k%d:max%s:cnt%s' % (P[0], 'M' if mx == M else mx, {M: 'M', M - 1: 'M-1'}.get(cnt, cnt))
+                    add('limit:new:' + tag, [insl(1, P, 1, 10, mx, cnt), rem(1, P), ins(1, P, 1, 10)])
+                    add('limit:replace:' + tag, [ins(1, P, 1, 10), insl(1, P, 2, 22, mx, cnt), rem(1, P)])
+                    add('limit:addpath:' + tag, [ins(1, P, 1, 10), insl(1, P, 2, 22, mx, cnt, 1), rem(1, P, 1), rem(1, P)])
+                    add('limit:other_peer:' + tag, [ins(2, P, 1, 10), insl(1, P, 2, 22, mx, cnt), rem(1, P), rem(2, P)])
+        # D: restarting-speaker deferral (start on an empty family, changes suppressed, end emits every destination)
+        OTHER = {0: (3, 1), 3: (0, 1), 1: (4, 2), 4: (1, 2)}
+        for P in PF:
+            f, O = P[0], OTHER[P[0]]
+            sd, ed = ('sdef', f), ('edef', f)
+            add('defer:insert_end:k%d' % f, [sd, ins(1, P, 1, 10), ins(2, P, 2, 22), ed, rem(1, P), rem(2, P)])
+            add('defer:insert_remove_end:k%d' % f, [sd, ins(1, P, 1, 10), rem(1, P), ed, ins(1, P, 1, 10)])
+            add('defer:replace_end:k%d' % f, [sd, ins(1, P, 1, 10), ins(1, P, 2, 22), ins(1, P, None, 10), ed])
+            add('defer:other_family:k%d' % f, [sd, ins(1, O, 1, 10), ins(1, P, 1, 10), rem(1, O), ed, ('edef', O[0])])
+            add('defer:all_filtered_at_end:k%d' % f, [('pol', 1), sd, ins(2, P, 2, 10), ins(2, (P[0], P[1] + (1 if P[1] < 10 else -10)), 2, 10), ed, ('pol', 0), ('reset', 2)])
+            add('defer:end_without_start:k%d' % f, [ins(1, P, 1, 10), ed, rem(1, P), ed])
+            add('defer:start_twice:k%d' % f, [sd, sd, ins(1, P, 1, 10), ed, ins(2, P, 2, 10), ed])
+            add('defer:restart:k%d' % f, [sd, ins(1, P, 1, 10), rem(1, P), ed, sd, ins(1, P, 1, 10), ed])
+            add('defer:purges:k%d' % f, [sd, ins(1, P, 1, 10), ins(2, P, 2, 18), ins(4, P, 3, 10), ('mstale', 2), ('dstale', 2), ('nhv', 1, False),
+                                         ('mllgr', 4), ('drop', 1), ed, ('nhv', 1, True), ('dllgr', 4)])
+            add('defer:reset:k%d' % f, [sd, ins(2, P, 1, 10), ('pol', 3), ('reset', 2), ed, ('pol', 0), ('reset', 2)])
+            add('defer:limit:k%d' % f, [sd, insl(1, P, 1, 10, 1, 1), insl(2, P, 2, 10, 1, 0), ed])
+            add('defer:all_families:k%d' % f, [('sdef', 0), ('sdef', 1), ('sdef', 3), ('sdef', 4), ins(1, P, 1, 10), ins(2, O, 2, 10), ed, ('edef', O[0])])
         return out
 
     def gen_cases(self, rng, tier):
@@ -405,7 +456,7 @@ class Prop:
         # requests come in hash-map order, which is not modelled
         seen, shared = {}, set()
         for o in case['ops']:
-            if o[0] == 'ins' and o[3][0] in (1, 4):
+            if o[0] in ('ins', 'insl') and o[3][0] in (1, 4):
                 lk = (o[3][0] + 1, o[3][1] % 10)
                 seen.setdefault(lk, set()).add(tuple(o[3]))
                 if len(seen[lk]) > 1:
@@ -447,11 +498,32 @@ class Prop:
         fib, ref = {}, {}
         unreach = set()
         vpn_seen = {}                           # VRF-local prefix -> VPN prefixes inserted so far
+        frozen = {}                             # deferring family -> FIB contents of its keys when the deferral started
+        fam_of = lambda key: key[1][0] if key[0] is None else key[1][0] - 1
+        prev_view = []
         for k, (o, (reqs, view)) in enumerate(zip(c['ops'], obs)):
             if o[0] == 'nhv':
                 (unreach.discard if o[2] else unreach.add)(o[1])
-            if o[0] == 'ins' and o[3][0] in (1, 4):
+            if o[0] in ('ins', 'insl') and o[3][0] in (1, 4):
                 vpn_seen.setdefault((o[3][0] + 1, o[3][1] % 10), set()).add(tuple(o[3]))
+            if o[0] == 'sdef' and o[1] not in frozen:
+                frozen[o[1]] = {key: sorted(set(v)) for key, v in fib.items() if fam_of(key) == o[1]}
+            if o[0] == 'edef':
+                frozen.pop(o[1], None)
+            if o[0] == 'insl':
+                # a peer's first path for a prefix is refused when its counter has reached the limit; every
+                # other insert is stored
+                pv = {tuple(n): a for n, a, _ in prev_view}
+                nv = {tuple(n): a for n, a, _ in view}
+                had = any(x[0] == o[1] for x in pv.get(tuple(o[3]), []))
+                refused = (not had) and o[8] >= o[7]
+                has = any(x[0] == o[1] and x[2] == o[4] for x in nv.get(tuple(o[3]), []))
+                if refused and (sorted(map(json.dumps, prev_view)) != sorted(map(json.dumps, view)) or reqs):
+                    return 'step %d: insert refused by the prefix limit (%d >= %d) changed the RIB or issued requests %s' % (k, o[8], o[7], reqs)
+                if not refused and not has:
+                    return 'step %d: insert within the prefix limit (counter %d, limit %d, prefix %s for the peer) was not stored' % (
+                        k, o[8], o[7], 'known' if had else 'new')
+            prev_view = view
             replay(reqs, fib, ref)
             want_fib = {}
             vrf_want = {}                       # (table, local prefix) -> list of (vpn prefix, importable, nhs)
@@ -493,8 +565,14 @@ class Prop:
                         vrf_want.setdefault((tid, (net[0] + 1, net[1] % 10)), []).append(
                             (net, oks.pop() if len(oks) == 1 else None, nhs))
             # (1) replayed FIB = ECMP next-hop set, for every prefix
+            for key in set(fib) | set(want_fib) | set(vrf_want):
+                if fam_of(key) in frozen:
+                    got = sorted(set(fib.get(key, [])))
+                    if got != frozen[fam_of(key)].get(key, []):
+                        return 'step %d: FIB table %s prefix %s changed from %s to %s while its family is in deferral' % (
+                            k, key[0], list(key[1]), frozen[fam_of(key)].get(key, []), got)
             for key in set(fib) | set(want_fib):
-                if key[0] is not None:
+                if key[0] is not None or fam_of(key) in frozen:
                     continue
                 w = want_fib.get(key, [])
                 got = sorted(set(fib.get(key, [])))
@@ -502,6 +580,8 @@ class Prop:
                     return 'step %d: FIB table %s prefix %s holds next hops %s, the best path and its ties have %s' % (k, key[0], list(key[1]), got, w)
             # (1b) ... and in every VRF table: what each importable VPN prefix demands, nothing otherwise
             for key in set(x for x in fib if x[0] is not None) | set(vrf_want):
+                if fam_of(key) in frozen:
+                    continue
                 got = sorted(set(fib.get(key, [])))
                 demands = vrf_want.get(key, [])
                 shared = ' [shared VRF-local prefix: %s]' % sorted(vpn_seen.get(key[1], [])) if len(vpn_seen.get(key[1], [])) > 1 else ''
@@ -553,7 +633,7 @@ class Prop:
         tags = ['len_%s' % ('1-4' if len(c['ops']) <= 4 else '5-12' if len(c['ops']) <= 12 else '13+'), 'shards_%d' % c['shards']]
         for o in c['ops']:
             tags.append('op_' + o[0])
-            if o[0] in ('ins', 'rem'):
+            if o[0] in ('ins', 'rem', 'insl'):
                 tags.append('prefix_kind_%d' % o[3][0])
         if c.get('cls'):
             tags.append('enum_' + c['cls'])
